@@ -1340,6 +1340,8 @@ STATEMENTS = {
 	'view_annotated_const_prefix_counterexample': "REGRESSION (fixed 448468e): with startswith('const') instead of startswith('const ') the class constant annotated Embed::immutable stays by-value",
 	'view_var_type_origin': 'Param.var_type_origin of <name>, <name><…>, <name>…*, <name>…& and const <name>… is the whole type name, for every type name but the word const',
 	'view_super_initializer': "SuperInitializer.parse('<Base>::__init__(<args>);') = (Base, args) for every identifier Base and every ;-free argument text",
+	'equivariant_capture': 'Lambda.ref_vars / Closure.ref_vars (referenced variables minus the own parameters) and the capture list of make_lambda_binds (first reference first, each name once) commute with every injective renaming',
+	'capture_prefix_counterexample': 'REGRESSION (seeded mutation): parameters removed with startswith(<parameter names>) drop the captured factor_bias beside the parameter factor',
 	'name_sites_guarded': 'in the table generated from py2cpp.py on this run (every comparison of a user-controlled name with words the transpiler spells out), each comparison of a MEMBER name with words a user class may use (items, keys, values, pop, sort, split, on, raw, name, value, …) stands under a guard on the TYPE of the receiver (type_is / cvars.contains / cvars.equals / isinstance(.types) / a Py2Cpp predicate that is such a site)',
 	'equivariant': 'bundle of the equivariant_* theorems for an injective renaming that fixes the reserved words',
 	'string_refines': 'bundle of the string_refines_* theorems for well-formed names',
@@ -1352,7 +1354,7 @@ def run(ctx: Ctx) -> int:
 	proof = common.prove(ctx, PROP, leanchecker=ctx.thorough)
 	with ctx.timed('correspondence'):
 		streams = [guarded_stream(ctx, name, fn) for name, fn in (('dsn', stream_dsn), ('scope-real', stream_real), ('scope-synth', stream_synth),
-			('merge', stream_merge), ('naming', stream_naming), ('fragments', stream_fragments), ('regex', stream_regex), ('viewhelper', stream_viewhelper))]
+			('merge', stream_merge), ('naming', stream_naming), ('fragments', stream_fragments), ('regex', stream_regex), ('viewhelper', stream_viewhelper), ('capture', stream_capture))]
 	with ctx.timed('search'):
 		searches = [guarded_search(ctx, label, fn) for label, fn in (('rename', search_rename), ('sibling-scopes', search_sibling_scopes),
 			('symtable', search_symtable), ('fragments', search_fragments))]
@@ -1364,7 +1366,7 @@ def run(ctx: Ctx) -> int:
 				'the string layer refines the abstract layer for identifier names for every modelled function, including VarsCollector._merged as repaired in 526fc7c; '
 				'class naming, enum member lookup, the PatternParser regex helpers and the CppViewHelper type-name / base-class helpers return the parts of well-formed fragments verbatim and decide by whole names; '
 				'every member-name comparison of py2cpp.py is type-guarded (kernel-decided over the generated table)',
-			'correspondence_only': 'that the two model layers are what the Python does (streams dsn, scope-real, scope-synth, merge, naming, fragments, viewhelper); that the hand-written scanners of Fragment / ViewHelper equal the generated patterns (streams regex, viewhelper print both)',
+			'correspondence_only': 'that the two model layers are what the Python does (streams dsn, scope-real, scope-synth, merge, naming, fragments, viewhelper, capture); that the hand-written scanners of Fragment / ViewHelper equal the generated patterns (streams regex, viewhelper print both)',
 			'search_only': 'the whole-pipeline law transpile(r(P)) == r(transpile(P)) incl. templates and the regex/string post-processing of py2cpp.py:1679-1836, symbol keys, inferred type strings',
 			'not_modelled': 'the handler-less ClassDomainNaming.__namespace only on the string layer (dead from Py2Cpp); CppViewHelper.Param.parse (BlockParser: property C18) and Method.break_iterator_list_complex (its patterns are generated and matched, the function is not composed), Initializer.parse only as the composition over the generated patterns (no theorem), and the templates: search only',
 			'generated': 'Generated/C08Regex.lean (15 compiled patterns, via re._parser), Generated/C08Sites.lean (comparison sites, ast scan vs translate/c08_sites_audited.json) and Generated/C08Names.lean (every comparison of a user-controlled name of py2cpp.py with constant words, the words evaluated in the imported module, with the type guards around it) are rewritten from the source on every run; the word sets of C08Names also drive the member-spelling programs of the search',
@@ -1687,6 +1689,88 @@ def stream_regex(ctx: Ctx) -> Stream:
 		cases.append(({'pattern': name}, ops, outs))
 	st = common.correspond('regex', cases, 'scope', classify=lambda d: d['pattern'].split('.')[0])
 	st.note = f'{len(pats)} compiled patterns of PatternParser / CppViewHelper (translated to Generated/C08Regex.lean on this run): fullmatch / search / sub(\'\') with spans and groups on hand-picked rendered statements, their mutations and random strings over a punctuation-heavy alphabet'
+	return st
+
+
+def stream_capture(ctx: Ctx) -> Stream:
+	"""The REAL Lambda.ref_vars / Closure.ref_vars / Py2Cpp.make_lambda_binds on the lambdas and closures of generated programs —
+	as generated and under renamings that make captured variables and parameters prefixes / suffixes of each other — vs the model."""
+	import rogw.tranp.semantics.reflection.definition as refs
+	import rogw.tranp.syntax.node.definition as defs
+	from rogw.tranp.implements.cpp.transpiler.py2cpp import Py2Cpp
+	from rogw.tranp.semantics.reflections import Reflections
+	from rogw.tranp.syntax.node.definition.primary import PluckVars
+	rng = ctx.sub_rng('capture')
+	real = Real(ctx)
+	reserved = real.reserved()
+	avoid = c08gen.emitter_vocabulary() | reserved.words
+	cases = []
+	hist: Counter[str] = Counter()
+	deadline = Deadline(ctx, 20, 150)
+	n = ctx.scale(14, 120)
+	for i in budgeted(range(n)):
+		if deadline.cut(hist, i, n):
+			break
+		prng = random.Random(rng.getrandbits(48))
+		src = c08gen.generate_pairs_program(prng, avoid) if i % 2 == 0 else c08gen.generate_nest(prng, 2)[0]
+		if i % 4 != 3:
+			try:
+				dom = c08gen.renaming_domain(src, reserved)
+				pairs = [p for p in c08gen.meeting_pairs(src) if 'captured' in p[2]]
+				mapping, _ = c08gen.pair_renaming(prng, pairs, dom, set(c08gen.IDENT_RE.findall(src)), reserved, prng.randrange(c08gen.PAIR_COMBOS))
+				if mapping:
+					src = c08gen.rename_source(src, mapping)
+					hist['program:captured/parameter names related'] += 1
+			except Exception:  # noqa: BLE001
+				pass
+		try:
+			module = real.load(src)
+			reflections = real.app.resolve(Reflections)
+			py2cpp = real.app.resolve(Py2Cpp)
+			holders = [nd for nd in module.entrypoint.procedural() if isinstance(nd, (defs.Lambda, defs.Closure))]
+		except Exception:  # noqa: BLE001
+			hist['program:not-loadable'] += 1
+			continue
+		ops: list[str] = []
+		outs: list[str] = []
+		for nd in holders:
+			try:
+				params = [v.symbol.domain_name for v in nd.decl_vars]
+				plucked = list(PluckVars.ref_vars(nd))
+			except Exception:  # noqa: BLE001
+				continue
+			names = [v.domain_name for v in plucked]
+			ops.append(f'capture\t{hl(params)}\t{hl(names)}')
+			try:
+				got = [v.domain_name for v in nd.ref_vars()]
+				outs.append(f'{hl(got)}|{hl(list(dict.fromkeys(got)))}')
+			except Exception as e:  # noqa: BLE001
+				outs.append(exc_enum(e))
+			# make_lambda_binds: the type test (classes and functions are not captured) is name-free: applied here, then the model decides
+			try:
+				if any(isinstance(v, defs.ThisRef) for v in plucked):
+					continue
+				typed = []
+				for v in plucked:
+					raw = reflections.type_of(v).impl(refs.Object)
+					if raw.type_is(type) or raw.types.is_a(defs.Function):
+						continue
+					typed.append(v.domain_name)
+			except Exception:  # noqa: BLE001
+				continue
+			ops.append(f'capture\t{hl(params)}\t{hl(typed)}')
+			try:
+				binds = py2cpp.make_lambda_binds(nd)
+				outs.append(f'{hl([x for x in typed if x not in params])}|{hl(list(binds))}')
+			except Exception as e:  # noqa: BLE001
+				outs.append(exc_enum(e))
+			hist['lambda' if isinstance(nd, defs.Lambda) else 'closure'] += 1
+		if ops:
+			cases.append(({'holders': len(holders)}, ops, outs))
+	st = common.correspond('capture', cases, 'scope', classify=lambda d: f"lambdas+closures={min(d['holders'], 5)}")
+	st.histogram.update(hist)
+	st.note = ('Lambda.ref_vars / Closure.ref_vars (names of the referenced variables that are not parameters) and Py2Cpp.make_lambda_binds (capture list) of every lambda and closure of '
+		'meeting-pair programs and nests, three quarters of them renamed so that a captured variable and a parameter are prefix / suffix / infix / case variants of each other')
 	return st
 
 
